@@ -22,11 +22,11 @@ TASK: craft ONE realistic change (a plausible bug a developer could introduce: a
   (c) the breakage needs something specific to manifest - an unusual input, a particular parameter combination (e.g. non-zero offsets, b != 0, negative sign corrections, wrap-around limits, 5-DOF robot, a wrapper stack), a multi-step sequence of operations, or two cooperating sites that each look fine alone - NOT something that ordinary use or the existing tests would expose at once.
 Prefer a subtle semantic change over a crude one; keep the diff small (a few lines). Do not add comments that reveal the bug.
 
-Build/test recipe (offline sandbox; always use these env vars; a warm shared target dir makes builds take about 1-2 minutes; builds from several agents serialise on a cargo lock, just wait):
+Build/test recipe (offline sandbox; always use these env vars; your own warm target dir makes builds take about 1-2 minutes; after switching the source between patched/unpatched run `touch src/*.rs src/*/*.rs` so cargo rebuilds):
   cd /tmp/seed/{pid}/wt
-  CARGO_NET_OFFLINE=true CARGO_TARGET_DIR=/tmp/seed/target cargo test --lib --offline            # the existing 66 tests - must still pass with your change
+  CARGO_NET_OFFLINE=true CARGO_TARGET_DIR=/tmp/seed/{pid}/target cargo test --lib --offline            # the existing 66 tests - must still pass with your change
 Write a demonstration as an integration test file /tmp/seed/{pid}/wt/tests/seed_demo.rs (the crate is `rs_opw_kinematics`; nalgebra 0.33, parry3d, rand are available as dependencies of the crate; no new crates can be fetched) and run it with
-  CARGO_NET_OFFLINE=true CARGO_TARGET_DIR=/tmp/seed/target cargo test --test seed_demo --offline
+  CARGO_NET_OFFLINE=true CARGO_TARGET_DIR=/tmp/seed/{pid}/target cargo test --test seed_demo --offline
 The demonstration must FAIL with your change applied and PASS on the original source (verify both: use `git stash` / `git diff > patch; git checkout -- src` etc. to switch). If the public API cannot reach the changed code from an integration test you may instead put the demo in a NEW file src/tests/seed_demo.rs plus one `mod seed_demo;` line in src/tests/mod.rs, but then keep those additions out of patch.diff and tell me.
 
 DELIVERABLES in /tmp/seed/{pid}/out/ :
